@@ -140,9 +140,12 @@ Qed.
 
 (* the step length of a coarse step is the sum of its fine steps *)
 Theorem coarse_dt_sum g disc cpts r k :
-  coarse g disc cpts = Some r -> (k < List.length (coarse_groups g cpts))%nat ->
-  nth k (rg_dt r) 0 == qsum (pick 0 (g_dt g) (nth k (coarse_groups g cpts) [])).
+  coarse g disc cpts = Some r -> (k < List.length (coarse_groups_in g cpts))%nat ->
+  nth k (rg_dt r) 0 == qsum (pick 0 (g_dt g) (nth k (coarse_groups_in g cpts) [])).
 Proof.
-  unfold coarse. intros H Hk. destruct (existsb _ _); [discriminate|]. inversion H; subst; cbn [rg_dt].
+  unfold coarse. intros H Hk. inversion H; subst; cbn [rg_dt].
   erewrite nth_map_in by exact Hk. apply qsumx_spec.
 Qed.
+(* a group that contains a fine step is kept *)
+Lemma coarse_groups_in_keep g cpts grp i : In grp (coarse_groups g cpts) -> In i grp -> In grp (coarse_groups_in g cpts).
+Proof. intros H Hi. unfold coarse_groups_in. apply filter_In. split; [exact H|]. destruct grp; [destruct Hi|reflexivity]. Qed.
